@@ -46,7 +46,8 @@ public:
 
     XalanParamHolder(MemoryManager&     theMemoryManager) :
         m_expression(theMemoryManager),
-        m_value()
+        m_value(),
+        m_node(0)
     {
     }
 
@@ -54,7 +55,8 @@ public:
                 const XalanParamHolder&     theRHS,
                 MemoryManager&              theMemoryManager) :
         m_expression(theRHS.m_expression, theMemoryManager),
-        m_value(theRHS.m_value)
+        m_value(theRHS.m_value),
+        m_node(theRHS.m_node)
     {
     }
 
@@ -62,7 +64,8 @@ public:
                 MemoryManager&          theMemoryManager,
                 const XalanDOMString&   theString) :
         m_expression(theString, theMemoryManager),
-        m_value()
+        m_value(),
+        m_node(0)
     {
     }
 
@@ -70,13 +73,20 @@ public:
                MemoryManager&  theMemoryManager,
                XObjectPtr      theXObject) :
         m_expression(theMemoryManager),
-        m_value(theXObject)
+        m_value(theXObject),
+        m_node(0)
     {
     }
 
     XalanDOMString  m_expression;
 
     XObjectPtr      m_value;
+
+    // A node supplied as the value.  The XObject for it is created for
+    // each transformation, because a node-set XObject caches its string
+    // and number values, and those depend on the white-space stripping
+    // of the stylesheet it is used with.
+    XalanNode*      m_node;
 
 private:
 
